@@ -19,6 +19,31 @@ Definition arith_num (op : Z) (a b : num) : option num :=      (* None = ZeroDiv
   | _ => if num_is_zero b then None else Some (NF (num_q a / num_q b)%Q)
   end.
 
+(* ---------- to_number on text spelling a plain decimal number: [+-]?digits(.digits)? ---------- *)
+Fixpoint all_digits_z (s : list Z) : bool := match s with [] => true | c :: r => is_digit c && all_digits_z r end.
+Definition digits_value (s : list Z) : Z := fold_left (fun a c => a * 10 + (c - 48)) s 0.
+Fixpoint split_dot_aux (s acc : list Z) : list Z * option (list Z) :=
+  match s with
+  | [] => (rev acc, None)
+  | c :: r => if c =? 46 then (rev acc, Some r) else split_dot_aux r (c :: acc)
+  end.
+Definition is_nil (s : list Z) : bool := match s with [] => true | _ => false end.
+Definition text_number (s : list Z) : option num :=
+  let '(neg, body) := match s with
+                      | 45 :: r => (true, r)
+                      | 43 :: r => (false, r)
+                      | _ => (false, s)
+                      end in
+  let sg (z : Z) := if neg then - z else z in
+  match split_dot_aux body [] with
+  | (ip, None) => if negb (is_nil ip) && all_digits_z ip then Some (NI (sg (digits_value ip))) else None
+  | (ip, Some fp) =>
+      if all_digits_z ip && all_digits_z fp && negb (is_nil ip && is_nil fp)
+      then Some (NF (Qmake (sg (digits_value (ip ++ fp))) (Z.to_pos (10 ^ Z.of_nat (length fp)))))
+      else None
+  end.
+
+
 (* serialize_date on a datetime: the int 0 for 1900-01-01T00:00, a float otherwise *)
 Definition serialize_num (t : datetime) : num := if serial_us t =? 0 then NI 0 else NF (serial_q t).
 
@@ -45,6 +70,7 @@ Definition classify (v : value) : operand :=
   | VBool b => OpNum (NI (if b then 1 else 0))
   | VDate t => OpDate t
   | VBlank => OpNone
+  | VText s => match text_number s with Some n => OpNum n | None => OpOther end   (* to_number on text spelling a plain decimal *)
   | _ => OpOther
   end.
 Definition kind_of (o : operand) : option tkind :=
